@@ -870,6 +870,19 @@ theorem C14_conn_lru_bound (cap : Int) (as : List (PLru.Action κ)) (s : PLru.St
   have hc' : s.lru.cap = cap := by rw [hc]; rfl
   exact ⟨hL.1, hc', fun hp => by have := hL.2 (by rw [hc']; exact hp); rw [hc'] at this; exact this, hS⟩
 
+/-- **The machine with the real cache refuses no step**: in every reachable state, whatever the finite-map machine
+    can do next (any caller's lookup, spawn, observe, finish, abort; any flight's completion; any server answer) the
+    machine over the real LRU can do too - in particular a lookup that misses on a full cache always finds the LRU's
+    victim in the cache and purges it. So `PLru` is `PConn` with the evictions DETERMINED by the LRU, nothing less. -/
+theorem C14_conn_lru_progress (cap : Int) (as : List (PLru.Action κ)) (s : PLru.State κ) (tr : List (Ev κ))
+    (h : PLru.run (PLru.init cap) as = some (s, tr)) (a : PLru.Action κ)
+    (ha : (PConn.step s.p a.toP).isSome = true) : (PLru.step s a).isSome = true := by
+  have hI0 : (PLru.init cap : PLru.State κ).lru.Inv := LRU.inv_new cap
+  obtain ⟨_, hL, hS⟩ := C14ConnLRU.run_good as _ _ _ C14ConnLRU.good_init hI0 (C14ConnLRU.sync_init cap) h
+  obtain ⟨as', h'⟩ := C14ConnLRU.run_sim as _ _ _ h
+  have hst : s.p.strict = false := by rw [C14ConnLRU.run_strict as' _ _ _ h']; rfl
+  exact C14ConnLRU.step_progress s a hL hS hst ha
+
 /-- non-vacuity: cache of ONE entry, two statements. Call 0 publishes the flight of statement 7; call 1 looks up
     statement 8: the LRU purges 7 while its PREPARE is still in flight (R:7:0), both PREPAREs are answered, both
     calls execute with their own ids; then call 2 executes 7 again: not cached, a second PREPARE of 7 (flight 2)
